@@ -161,6 +161,10 @@ func (ex *Exec) finish(st *State, fr *Frame, res Value) {
 	ex.event(st, &Event{Callee: "return", Args: fr.Args, Results: tupleElems(res), Fn: fr.Fn, Kind: "return"})
 	names := ex.freeVarNames(st, fr, ex.paramNames(fr.Fn, fr.Args, res, true))
 	for i, en := range ct.Ensures {
+		if en.Assumed {
+			AssumedClauses[fmt.Sprintf("assumed postcondition (not checked against the body): %s [%s] %s", shortName(ex.fnName(fr.Fn)), en.Label, en.Src)] = true
+			continue
+		}
 		var errs []string
 		env := &Env{ex: ex, st: st, names: names, errs: &errs}
 		t := env.evalBool(&en.Expr)
@@ -386,6 +390,10 @@ func (ex *Exec) applyContract(st *State, fr *Frame, ins ssa.Instruction, f *ssa.
 		}
 	}
 	res := ex.freshResults(f.Signature, sanitize(shortName(f.String())))
+	if ct.ErrOrigin != "" {
+		markLib(res)
+		markOrigin(res, ct.ErrOrigin)
+	}
 	// results of contracts may be nil pointers: regenerate pointer results as possibly-nil
 	res = ex.relaxNil(f.Signature, res)
 	names2 := ex.paramNames(f, args, res, true)
@@ -411,6 +419,9 @@ func (ex *Exec) applyContract(st *State, fr *Frame, ins ssa.Instruction, f *ssa.
 		st.Ghost["gp:"+ef.Pred] = Ite(c, Store(arr, at, BoolC(ef.Value)), arr)
 	}
 	for _, en := range ct.Ensures {
+		if en.Assumed {
+			AssumedClauses[fmt.Sprintf("assumed postcondition (not checked against the body): %s [%s] %s", shortName(ex.fnName(f)), en.Label, en.Src)] = true
+		}
 		t := env2.evalBool(&en.Expr)
 		if t == nil {
 			ex.Specs.Errors = append(ex.Specs.Errors, fmt.Sprintf("%s: ensures %q at call in %s: %s", en.Line, en.Src, fr.Fn.Name(), strings.Join(errs, "; ")))
@@ -1326,3 +1337,6 @@ func (ex *Exec) noteHit(tc *Temporal) {
 	}
 	ex.TemporalHits[tc]++
 }
+
+// AssumedClauses: postconditions declared `assumes` that this run relied upon.
+var AssumedClauses = map[string]bool{}
